@@ -27,13 +27,14 @@ func init() {
 		e.RMapOrder(nil)
 		e.RPureDecorate()
 		e.RPureRestore()
+		e.RSharedState()
 		e.RFragOrder()
 	})
 	register("C17", Meta{
 		Explanation: "Error discipline and purity, statically: every call into the dst module, a resolver interface, go/parser, go/format or go/packages that returns an error has it tested against nil by the next statement and returned (itself or %w-wrapped) at once, the error branch doing nothing else; decorate-path code never writes go/ast memory; restore-path code writes the dst tree only inside updateImports, where no store lies on a CFG path to an error return and the resolver loop precedes every store. Decides 'errors surface, input untouched' for every failure position; retry equality follows only together with C16's determinism.",
 		NotCovered:  []string{"byte equality of the retry with a failure-free run (determinism is C16; go/printer outside)"},
 	}, func(e *Env) {
-		e.RErr(e.pkgs(load.PkgDecorator, load.PkgGoast, load.PkgGotypes, load.PkgGuess, load.PkgSimple, load.PkgDst, load.PkgDstutil), 90)
+		e.RErr(e.pkgs(load.PkgDecorator, load.PkgGoast, load.PkgGotypes, load.PkgGuess, load.PkgSimple, load.PkgGobuild, load.PkgGopkgs, load.PkgDst, load.PkgDstutil), 90)
 		e.RPureDecorate()
 		e.RPureRestore()
 		e.RPureUpdateImports()
